@@ -24,7 +24,7 @@ def match_known(pid, fam, inst_desc, check_desc):
 
 
 def e1_run(pid, tier, harnesses, modules, assumptions, bounds, functions, jobs=None,
-           harness_timeout=600, total_timeout=5400, native_samples=3, extra_cov=None):
+           harness_timeout=600, total_timeout=7200, native_samples=3, extra_cov=None):
     """Returns the part-result dict (see lib/parts.py)."""
     t0 = time.time()
     cdir = os.path.join(CACHE, "e1", "%s-%s" % (pid, tier))
